@@ -726,10 +726,244 @@ def wl_C19(tier, rng):
         yield ({"cls": cls, "kind": "-", "n": n, "len": len(ops)}, ops)
 
 
+# ------------------------------------------------------------------ C13 / C14 / C15: file routines
+import struct
+
+TEXT_KINDS = ["none", "int", "str"]
+BIN_KINDS = ["none", "chr", "i16", "int", "uint", "i64", "flt", "dbl"]
+BIN_FMT = {"none": None, "chr": "<b", "i16": "<h", "int": "<i", "uint": "<I", "i64": "<q", "flt": "<f", "dbl": "<d"}
+
+
+def hexs(b):
+    return b.hex() if b else "-"
+
+
+def bin_label_tok(rng, kind):
+    if kind == "none":
+        return 0
+    if kind == "uint":
+        return rng.choice([0, 1, 7, 255, 256, 65536, 4294967295])
+    if kind == "chr":
+        return rng.choice([0, 1, -1, 65, 127, -128])
+    if kind == "i16":
+        return rng.choice([0, 1, -1, 300, 32767, -32768])
+    if kind == "int":
+        return rng.choice([0, 1, -1, 70000, 2147483647, -2147483648])
+    if kind == "i64":
+        return rng.choice([0, 1, -1, 2 ** 40 + 3, -(2 ** 40) - 3])
+    return rng.choice([0, 1, -1, 6, -37, 1024, 3])   # quarter units for flt / dbl
+
+
+def bin_file(kind, recs):
+    out = b""
+    for (i, j, l) in recs:
+        out += struct.pack("<II", i, j)
+        f = BIN_FMT[kind]
+        if f:
+            out += struct.pack(f, l / 4.0 if kind in ("flt", "dbl") else l)
+    return out
+
+
+def graph_ops_labelled(cls, kind, n, es, labels, slot=0):
+    ops = [gen.new_line(slot, cls, kind, n)]
+    for (i, j), l in zip(es, labels):
+        ops.append(f"addEdge {slot} {i} {j} {l} 0")
+    return ops
+
+
+def text_line(rng, a, b, lab, style):
+    ws = lambda lo=1: "".join(rng.choice([" ", "\t"]) for _ in range(rng.randint(lo, 3)))
+    lead = ws(0) if style != "plain" else ""
+    line = lead + a + (ws() if style != "plain" else " ") + b
+    if lab is not None:
+        line += (ws() if style != "plain" else " ") + lab
+    if style == "trail":
+        line += ws()
+    if style == "crlf":
+        line += "\r"
+    return line
+
+
+def wellformed_text(rng, kind, named, n_lines=6, vmax=6):
+    lines = []
+    names = ["a", "b", "c", "node7", "x_y", "Z", "0", "12"]
+    for _ in range(rng.randint(0, n_lines)):
+        r = rng.random()
+        if r < 0.2:
+            lines.append("#" + rng.choice(["", " comment", "# 1 2 3", " 0 1"]))
+            continue
+        style = rng.choice(["plain", "ws", "ws", "trail", "crlf"])
+        if named:
+            a, b = rng.choice(names), rng.choice(names)
+        else:
+            a, b = str(rng.randint(0, vmax)), str(rng.randint(0, vmax))
+            if rng.random() < 0.1:
+                a = "+" + a
+            if rng.random() < 0.1:
+                b = "0" + b
+        lab = None
+        if kind == "int":
+            lab = str(rng.randint(-20, 20))
+        elif kind == "str":
+            lab = rng.choice(["s1", "s22", "hello", "two words", "x", "s0", "s-3"]) if rng.random() < 0.85 else None
+        lines.append(text_line(rng, a, b, lab, style))
+    text = "\n".join(lines)
+    if lines and rng.random() < 0.8:
+        text += "\n"
+    return text.encode()
+
+
+def wl_C13(tier, rng):
+    # round trips: all graphs on n <= 2 (quick) / 3 (thorough) x codecs, then random
+    for cls in SIMPLE:
+        und = cls == "und"
+        for kind in TEXT_KINDS:
+            for n in scale(tier, [0, 1, 2], [0, 1, 2, 3]):
+                pairs = [(i, j) for i in range(n) for j in range(n) if (not und or i <= j)]
+                total = 1 << len(pairs)
+                for mask in (range(total) if total <= 600 else [rng.randrange(total) for _ in range(600)]):
+                    es = [p for b, p in enumerate(pairs) if mask >> b & 1]
+                    labels = [((5 * i + j) % 7) - 2 if kind != "str" else (5 * i + j) % 7 for (i, j) in es]
+                    ops = ["mode quiet"] + graph_ops_labelled(cls, kind, n, es, labels)
+                    ops += [f"writetext 0 {kind}", f"roundtriptext 0 1 {kind}", "mode verbose", "dump 1", f"resize 1 {n}", "eq 0 1", "eq 1 0"]
+                    yield ({"cls": cls, "kind": kind, "n": n, "len": len(ops), "exh": total <= 600}, ops)
+    for _ in range(scale(tier, 1200, 25000)):
+        cls = rng.choice(SIMPLE)
+        kind = rng.choice(TEXT_KINDS)
+        n = rng.randint(0, scale(tier, 8, 14))
+        es = rand_edges(rng, n)
+        if cls == "und":
+            es = und_canon(es)
+        labels = [gen.label_tok(rng, kind) for _ in es]
+        ops = ["mode quiet"] + graph_ops_labelled(cls, kind, n, es, labels)
+        ops += [f"roundtriptext 0 1 {kind}", "mode verbose", "dump 1", f"resize 1 {n}", "eq 0 1"]
+        yield ({"cls": cls, "kind": kind, "n": n, "len": len(ops)}, ops)
+    # documented format: comments, horizontal whitespace, names
+    for _ in range(scale(tier, 2500, 40000)):
+        cls = rng.choice(SIMPLE)
+        kind = rng.choice(TEXT_KINDS)
+        named = rng.random() < 0.5
+        data = wellformed_text(rng, kind, named)
+        verb = "loadtextnamed" if named else "loadtext"
+        yield ({"cls": cls, "kind": kind, "n": 0, "len": 1}, [f"{verb} 0 {cls} {kind} {hexs(data)}", "dump 0"])
+
+
+def wl_C14(tier, rng):
+    for cls in SIMPLE:
+        und = cls == "und"
+        for kind in BIN_KINDS:
+            for n in scale(tier, [0, 1, 2], [0, 1, 2, 3]):
+                pairs = [(i, j) for i in range(n) for j in range(n) if (not und or i <= j)]
+                total = 1 << len(pairs)
+                lim = scale(tier, 64, 512)
+                for mask in (range(total) if total <= lim else [rng.randrange(total) for _ in range(lim)]):
+                    es = [p for b, p in enumerate(pairs) if mask >> b & 1]
+                    labels = [bin_label_tok(rng, kind) for _ in es]
+                    ops = ["mode quiet"] + graph_ops_labelled(cls, kind, n, es, labels)
+                    ops += [f"writebin 0 {kind}", f"roundtripbin 0 1 {kind}", "mode verbose", "dump 1", f"resize 1 {n}", "eq 0 1", "eq 1 0"]
+                    yield ({"cls": cls, "kind": kind, "n": n, "len": len(ops), "exh": total <= lim}, ops)
+    for _ in range(scale(tier, 1200, 25000)):
+        cls = rng.choice(SIMPLE)
+        kind = rng.choice(BIN_KINDS)
+        n = rng.randint(0, scale(tier, 8, 14))
+        es = rand_edges(rng, n)
+        if cls == "und":
+            es = und_canon(es)
+        labels = [bin_label_tok(rng, kind) for _ in es]
+        ops = ["mode quiet"] + graph_ops_labelled(cls, kind, n, es, labels)
+        ops += [f"roundtripbin 0 1 {kind}", "mode verbose", "dump 1", f"resize 1 {n}", "eq 0 1"]
+        yield ({"cls": cls, "kind": kind, "n": n, "len": len(ops)}, ops)
+    # hand-made files: records in any order, repeated records
+    for _ in range(scale(tier, 1500, 25000)):
+        cls = rng.choice(SIMPLE)
+        kind = rng.choice(BIN_KINDS)
+        recs = [(rng.randint(0, 9), rng.randint(0, 9), bin_label_tok(rng, kind)) for _ in range(rng.randint(0, 8))]
+        rng.shuffle(recs)
+        yield ({"cls": cls, "kind": kind, "n": 0, "len": 1}, [f"loadbin 0 {cls} {kind} {hexs(bin_file(kind, recs))}", "dump 0"])
+    # a file that cannot be opened: all six routines
+    for cls in SIMPLE:
+        for kind in ["none", "int"]:
+            ops = [f"openfail 0 {r} {cls} {kind}" for r in ("loadtext", "loadtextnamed", "loadbin", "writetext", "writebin")]
+            yield ({"cls": cls, "kind": kind, "n": 0, "len": len(ops)}, ops)
+
+
+def malformed_text(rng):
+    base = wellformed_text(rng, rng.choice(TEXT_KINDS), False).decode("latin1")
+    muts = rng.randint(1, 3)
+    lines = base.split("\n")
+    for _ in range(muts):
+        m = rng.choice(["blank", "onetok", "neg", "overflow", "alpha", "stray", "empty", "onlyws", "hash-late", "bigneg"])
+        pos = rng.randint(0, len(lines))
+        if m == "blank":
+            lines.insert(pos, "")
+        elif m == "onetok":
+            lines.insert(pos, rng.choice(["7", " 7", "7 ", "abc"]))
+        elif m == "neg":
+            lines.insert(pos, rng.choice(["-1 0", "0 -1", "-0 1", "3 -2 5"]))
+        elif m == "overflow":
+            lines.insert(pos, rng.choice(["99999999999 0", "0 2147483648", "4294967296 1", "-99999999999 0"]))
+        elif m == "alpha":
+            lines.insert(pos, rng.choice(["a b", "x 1", "1 y 3", "1x 2y", "0x10 1"]))
+        elif m == "stray":
+            lines.insert(pos, "".join(chr(rng.choice([0, 1, 127, 128, 200, 255, 35, 32, 9, 48, 49])) for _ in range(rng.randint(1, 6))))
+        elif m == "empty":
+            lines = []
+        elif m == "onlyws":
+            lines.insert(pos, rng.choice([" ", "\t", " \t ", "\r"]))
+        elif m == "hash-late":
+            lines.insert(pos, " # 1 2")
+        elif m == "bigneg":
+            lines.insert(pos, "-2147483648 0")
+    return "\n".join(lines).encode("latin1")
+
+
+def wl_C15(tier, rng):
+    # every cut offset of every generated binary file
+    for it in range(scale(tier, 120, 2500)):
+        cls = rng.choice(SIMPLE)
+        kind = rng.choice(BIN_KINDS)
+        recs = [(rng.randint(0, 6), rng.randint(0, 6), bin_label_tok(rng, kind)) for _ in range(rng.randint(1, 4))]
+        data = bin_file(kind, recs)
+        ops = ["mode quiet"]
+        for cut in range(len(data) + 1):
+            ops += [f"loadbin 0 {cls} {kind} {hexs(data[:cut])}", "dump 0"]
+        yield ({"cls": cls, "kind": kind, "n": 0, "len": len(ops), "exh": True}, ops)
+    # truncated text files (every cut of a small file)
+    for it in range(scale(tier, 60, 1200)):
+        cls = rng.choice(SIMPLE)
+        kind = rng.choice(TEXT_KINDS)
+        data = wellformed_text(rng, kind, False, n_lines=3)
+        ops = ["mode quiet"]
+        for cut in range(len(data) + 1):
+            ops += [f"loadtext 0 {cls} {kind} {hexs(data[:cut])}"]
+        yield ({"cls": cls, "kind": kind, "n": 0, "len": len(ops), "exh": True}, ops)
+    # malformed text
+    for _ in range(scale(tier, 4000, 80000)):
+        cls = rng.choice(SIMPLE)
+        kind = rng.choice(TEXT_KINDS)
+        data = malformed_text(rng)
+        verb = rng.choice(["loadtext", "loadtext", "loadtextnamed"])
+        yield ({"cls": cls, "kind": kind, "n": 0, "len": 1}, ["mode quiet", f"{verb} 0 {cls} {kind} {hexs(data)}", "dump 0"])
+    # arbitrary bytes offered as binary edge lists with small indices
+    for _ in range(scale(tier, 500, 10000)):
+        cls = rng.choice(SIMPLE)
+        kind = rng.choice(BIN_KINDS)
+        nrec = rng.randint(0, 4)
+        data = b""
+        for _ in range(nrec):
+            data += struct.pack("<II", rng.randint(0, 5), rng.randint(0, 5))
+            f = BIN_FMT[kind]
+            if f:
+                data += bytes(rng.randrange(256) for _ in range(struct.calcsize(f))) if kind not in ("flt", "dbl") else struct.pack(f, rng.choice([0.0, 1.5, -2.25, 8.0]))
+        data += bytes(rng.randrange(256) for _ in range(rng.randint(0, 3)))   # trailing partial garbage (< 4 bytes)
+        yield ({"cls": cls, "kind": kind, "n": 0, "len": 1}, ["mode quiet", f"loadbin 0 {cls} {kind} {hexs(data)}", "dump 0"])
+
+
 WORKLOADS = {
     "C01": wl_C01, "C02": wl_C02, "C03": wl_C03, "C04": wl_C04, "C05": wl_C05, "C06": wl_C06,
     "C07": wl_C07, "C08": wl_C08, "C09": wl_C09, "C10": wl_C10, "C16": wl_C16,
     "C11": wl_C11, "C12": wl_C12, "C19": wl_C19,
+    "C13": wl_C13, "C14": wl_C14, "C15": wl_C15,
 }
 
 # dump-line prefixes each property constrains (R = outcome lines incl. eq/query results)
@@ -747,4 +981,7 @@ PROJECTION = {
     "C16": ("R", "D", "N", "H", "E", "M", "O", "G", "X", "W"),
     "C11": ("R", "P"),
     "C12": ("R", "P"),
+    "C13": ("R", "F", "D", "N", "H", "L"),
+    "C14": ("R", "F", "D", "N", "H", "L"),
+    "C15": ("R", "D", "N", "H", "L"),
 }
